@@ -31,13 +31,15 @@ TOL_VB = 1e-6  # BZ-limited: with origin states the package takes the bare bias 
                # the model from an exact pseudo-inverse; observed 2e-8 (2D) / 1e-10 (3D) on data where both are right
 
 QUICK = [('FCC', 0, 1), ('BCC', 0, 1), ('HCP', 0, 1), ('SQUARE', 0, 1), ('HONEY', 0, 1), ('OMEGA', 0, 1),
-         ('FCC', 0, 2), ('RECTM', 0, 1)]
+         ('FCC', 0, 2), ('RECTM', 0, 1), ('OBLIQUE', 1, 1), ('MONO', 2, 1)]
 THOROUGH = QUICK + [('SC', 0, 1), ('DIAMOND', 0, 1), ('TET', 1, 1), ('TRIA', 0, 1), ('ROMEGA', 0, 1), ('B2', 0, 1), ('NBO', 0, 1),
                     ('HCP15', 1, 1), ('FCC', 1, 1), ('KAGOME', 0, 1), ('L12', 0, 1), ('WURTZ2', 0, 1),
-                    ('BCC', 0, 2), ('HCP', 0, 2), ('SQUARE', 0, 2), ('HONEY', 0, 2), ('SC', 0, 2), ('OMEGA', 0, 2)]
+                    ('BCC', 0, 2), ('HCP', 0, 2), ('SQUARE', 0, 2), ('HONEY', 0, 2), ('SC', 0, 2), ('OMEGA', 0, 2),
+                    ('TRIC', 2, 1), ('P1', 1, 1)]
 TORUS = {'FCC': (5, 5, 5), 'BCC': (5, 5, 5), 'HCP': (5, 5, 5), 'SQUARE': (7, 7), 'HONEY': (5, 5), 'OMEGA': (5, 5, 7),
          'ROMEGA': (5, 5, 7), 'B2': (5, 5, 5), 'SC': (5, 5, 5), 'DIAMOND': (5, 5, 5), 'TET': (5, 5, 5), 'TRIA': (7, 7),
-         'RECTM': (5, 5), 'NBO': (5, 5, 5), 'HCP15': (5, 5, 5), 'KAGOME': (5, 5), 'L12': (5, 5, 5), 'WURTZ2': (5, 5, 5)}
+         'RECTM': (5, 5), 'NBO': (5, 5, 5), 'HCP15': (5, 5, 5), 'KAGOME': (5, 5), 'L12': (5, 5, 5), 'WURTZ2': (5, 5, 5),
+         'OBLIQUE': (7, 7), 'MONO': (5, 5, 5), 'TRIC': (5, 5, 5), 'P1': (5, 5, 5)}
 CHUNK_NODES = 24
 
 
@@ -102,7 +104,7 @@ def evaluate(case):
         if case['N'] == 2: ns = tuple(n + 2 for n in ns)
         r1 = model.solve(*bF, pair.torus_gf(model.net, ns, bF[0], bF[3]))
         r2 = pair.torus_chain(model, ns, *bF)
-        for k in ('Lss', 'Lsv', 'L1vv_raw'):
+        for k in ('Lss', 'Lsv', 'Lsv_unsym', 'L1vv_raw'):
             err = float(np.abs(r1[k] - r2[k]).max()) / vm.tscale(r2[k])
             if err > 1e-9:
                 raise RuntimeError('MODEL ERROR (not a violation): R-pair(torus GF) vs R-torus {} differs by {:.2e} on {}'.format(k, err, case['key']))
@@ -125,8 +127,11 @@ def evaluate(case):
         execs += 1
         sc = vm.tscale(*L)
         errs = {}
+        # Lsv: the package's index order is (vacancy, solute); the exact cross-correlation <dx_solute (x) dx_vacancy>
+        # is NOT symmetric when the point group admits an antisymmetric invariant tensor, so compare unsymmetrised
+        refs = {'L0vv': ref['L0vv'], 'Lss': ref['Lss'], 'Lsv': ref['Lsv_unsym'].T, 'L1vv': ref['L1vv']}
         for name, val in zip(('L0vv', 'Lss', 'Lsv', 'L1vv'), L):
-            errs[name] = float(np.abs(val - ref[name]).max()) / sc
+            errs[name] = float(np.abs(val - refs[name]).max()) / sc
         if not np.all(np.isfinite(np.hstack([x.ravel() for x in L]))): errs['finite'] = 1.0
         tol = TOL
         if vm.has_vb(ent):
@@ -140,7 +145,7 @@ def evaluate(case):
             if e > tol:
                 viols.append({'oracle': name, 'key': key + ';pSuniform={}'.format(int(ref['uniform_solute'])),
                               'detail': {'relerr': e, 'package': L[('L0vv', 'Lss', 'Lsv', 'L1vv').index(name)].tolist() if name != 'finite' else None,
-                                         'model': ref[name].tolist() if name != 'finite' else None},
+                                         'model': refs[name].tolist() if name != 'finite' else None},
                               'case': subcase(base, devs)})
         outcomes.append('{:.6e}'.format(float(np.trace(L[1]))))
         if devs and np.abs(L[1] - base_L[base]).max() > 1e-9 * sc: nontriv += 1
